@@ -13,7 +13,9 @@ From Coq Require Import ZArith.
 From CV Require Import Base.Str Base.Utf8 Model.Common Model.MultiParts.
 Local Open Scope nat_scope.
 
-Record ctx := mkCtx { cvalue : str; cargs : list str; cparts : list str }.
+Record ctx := mkCtx { cvalue : str; cargs : list str; cparts : list str; cenv : list str }.   (* Env: "key=value" entries *)
+(* the Context handed down by ActionMultiParts: new value and parts, same args and environment *)
+Definition with_vp (c : ctx) (v : str) (parts : list str) : ctx := mkCtx v (cargs c) parts (cenv c).
 
 Inductive action :=
 | AStatic (m : meta) (vs : list raw)
@@ -104,9 +106,9 @@ Definition FilterParts (a : action) : action := callback (fun c => Filter (cpart
 Definition Suffix (s : str) (a : action) : action :=
   callback (fun c => let i := invoke a c in AStatic (fst i) (rv_suffix s (snd i))).
 
-Definition set_cvalue (c : ctx) (v : str) : ctx := mkCtx v (cargs c) (cparts c).
-Definition set_cargs (c : ctx) (l : list str) : ctx := mkCtx (cvalue c) l (cparts c).
-Definition set_cparts (c : ctx) (l : list str) : ctx := mkCtx (cvalue c) (cargs c) l.
+Definition set_cvalue (c : ctx) (v : str) : ctx := mkCtx v (cargs c) (cparts c) (cenv c).
+Definition set_cargs (c : ctx) (l : list str) : ctx := mkCtx (cvalue c) l (cparts c) (cenv c).
+Definition set_cparts (c : ctx) (l : list str) : ctx := mkCtx (cvalue c) (cargs c) l (cenv c).
 
 (* match.TrimPrefix: s[len(prefix):] when HasPrefix *)
 Definition match_trim_prefix (ci : bool) (s p : str) : str :=
@@ -175,6 +177,17 @@ Definition MultiParts (ci : bool) (ds : list str) (a : action) : action :=
       | None => AStatic meta0 []          (* panic; excluded by the theorems' premises *)
       end)).
 
+(* ---------- Context.Setenv / Getenv (context.go:56-81) ---------- *)
+Fixpoint after_eq (s : str) : str :=
+  match s with [] => [] | c :: s' => if beq c (byte 61) then s' else after_eq s' end.
+(* LookupEnv: the LAST entry that starts with key= wins; its value is what follows the first '=' *)
+Definition lookup_env (env : list str) (k : str) : str :=
+  fold_left (fun acc e => if has_prefix e (k ++ B [61]) then after_eq e else acc) env [].
+Definition set_env (c : ctx) (k v : str) : ctx := mkCtx (cvalue c) (cargs c) (cparts c) (cenv c ++ [k ++ B [61] ++ v]).
+(* a callback that sets a variable in ITS Context and invokes a beneath it *)
+Definition Setenv (k v : str) (a : action) : action := callback (fun c => to_a (invoke a (set_env c k v))).
+Definition Getenv (k : str) : action := callback (fun c => ActionValues [B [69] ++ lookup_env (cenv c) k]).
+
 (* ---------- strings.SplitN / Split / Join ---------- *)
 Fixpoint split_f (fuel : nat) (limit : option nat) (s sep : str) : list str :=
   match fuel with
@@ -220,17 +233,17 @@ Definition ActionMultiPartsN (sep : str) (n : Z) (cb : ctx -> action) : action :
       let '(prefix, c') :=
         match sep with
         | [] =>
-          if (n <? 0)%Z then (cvalue c, mkCtx [] (cargs c) splitted)
+          if (n <? 0)%Z then (cvalue c, with_vp c [] splitted)
           else
             let k := Z.to_nat (n - 1) in
             if k <? length (cvalue c)
-            then (take k (cvalue c), mkCtx (drop k (cvalue c)) (cargs c) (map snd (chunks (take k (cvalue c)))))
-            else (cvalue c, mkCtx [] (cargs c) (map snd (chunks (cvalue c))))
+            then (take k (cvalue c), with_vp c (drop k (cvalue c)) (map snd (chunks (take k (cvalue c)))))
+            else (cvalue c, with_vp c [] (map snd (chunks (cvalue c))))
         | _ =>
           if 1 <? length splitted
           then let parts := removelast splitted in
-               (join sep parts ++ sep, mkCtx (last splitted []) (cargs c) parts)
-          else ([], mkCtx (cvalue c) (cargs c) [])
+               (join sep parts ++ sep, with_vp c (last splitted []) parts)
+          else ([], with_vp c (cvalue c) [])
         end in
       let ns := match last_rune sep with Some r => r | None => star end in
       let i := invoke (cb c') c' in
